@@ -17,6 +17,8 @@ var registry = map[string]checkDef{
 	"C03": {"exploration", C03},
 	"C05": {"exploration", C05},
 	"C06": {"exploration", C06},
+	"C10": {"exploration", C10},
+	"C11": {"exploration", C11},
 	"C14": {"exploration", C14},
 	"C17": {"exploration", C17},
 }
